@@ -45,8 +45,17 @@ def lemma_vcs() -> list:
     def R(m):
         return z3.Implies(nonneg_upto(m), Sa(m) >= 0)
 
+    def unit_upto(m):
+        return z3.ForAll([j], z3.Implies(z3.And(j >= 0, j < m), z3.And(a(j) >= 0, a(j) <= 1)))
+
+    def ones_upto(m):
+        return z3.ForAll([j], z3.Implies(z3.And(j >= 0, j < m), a(j) == 1))
+
+    def U(m):
+        return z3.Implies(unit_upto(m), z3.And(Sa(m) >= 0, Sa(m) <= m, (Sa(m) == m) == ones_upto(m)))
+
     out = []
-    for name, prop in (("sum_le_and_eq_iff_pointwise", P), ("sum_ge_count", Q), ("sum_nonneg", R)):
+    for name, prop in (("sum_le_and_eq_iff_pointwise", P), ("sum_ge_count", Q), ("sum_nonneg", R), ("sum_of_zero_one", U)):
         out.append(VC(f"lemma:{name}#base", to_smt2(ax, prop(z3.IntVal(0))), kind="lemma", target="pyvc/lemmas.py"))
         out.append(VC(f"lemma:{name}#step", to_smt2(ax + [n >= 0, prop(n)], prop(n + 1)), kind="lemma", target="pyvc/lemmas.py"))
     return out
@@ -76,3 +85,13 @@ def sum_nonneg(cx, A: dict) -> None:
     j = z3.Int(cx._name("lj"))
     nn = z3.ForAll([j], z3.Implies(z3.And(j >= 0, j < n), A["fn"](j) >= 0))
     cx.assume(z3.Implies(z3.And(n >= 0, nn), A["S"](n) >= 0))
+
+
+def sum01(cx, A: dict) -> None:
+    """count lemma: summands in {0,1} => 0 <= S(n) <= n and (S(n) == n <=> all summands are 1)"""
+    n = A["n"]
+    j = z3.Int(cx._name("lj"))
+    rng = z3.And(j >= 0, j < n)
+    unit = z3.ForAll([j], z3.Implies(rng, z3.And(A["fn"](j) >= 0, A["fn"](j) <= 1)))
+    ones = z3.ForAll([j], z3.Implies(rng, A["fn"](j) == 1))
+    cx.assume(z3.Implies(z3.And(n >= 0, unit), z3.And(A["S"](n) >= 0, A["S"](n) <= n, (A["S"](n) == n) == ones)))
